@@ -5,7 +5,8 @@ from lib import _sep
 EXPLANATION = (
     "D1 every splitter (PkgName::new, Summary::pkgbase/pkgversion, Dewey::matches) searches the LAST '-' (rsplitn(2)/rsplit_once/rfind) and never a first-occurrence or unbounded split; "
     "D2 orientation: prefix -> base role, suffix -> version role; PkgName::new stores the unmodified input as pkgname and (whole, \"\") when there is no '-', and which arm is taken depends on the result of the '-' search alone (no extra condition such as a non-empty base); "
-    "D3 PkgName::new finds the revision with a last-occurrence search for \"nb\" on the version part and parses the text after it as i64 (empty -> 0)")
+    "D3 PkgName::new finds the revision with a last-occurrence search for \"nb\" on the version part and parses the text after it as i64 (empty -> 0)"
+    " D2-EMPTY-PART Summary::pkgbase / pkgversion answer None exactly when their part is empty; D4-REVISION-USED dewey_cmp compares lhs.pkgrevision with rhs.pkgrevision last (C03's CMP-3 / CMP-5 / CMP-RET, shared).")
 NOT_DECIDED = [
     "equality of PkgName's revision and the tokeniser's revision for versions where text follows the final nb<digits> (outside the property's 'ending in' clause)",
     "str::rsplit_once / rfind / split_at semantics (std)",
@@ -216,3 +217,7 @@ def run(ctx):
             if m:
                 break
         ctx.floor("D2-ORIENT", DM, "base comparison", m, 1)
+
+    # ---- D4-REVISION-USED: the PKGREVISION that PkgName reports is the one the version comparison uses: dewey_cmp compares lhs.pkgrevision with
+    #      rhs.pkgrevision, last, on every path that ties (C03's CMP-3 / CMP-5 / CMP-RET verdicts, shared)
+    share_rules(ctx, "C03", ("CMP-3", "CMP-5", "CMP-RET"), "D4-REVISION-USED", "dewey::dewey_cmp", 4)
